@@ -114,7 +114,8 @@ def field_case(rng, spec, nvdim=None):
         lab = "default"   # Field(vdims=[]) is refused by the constructor itself when nvdim == ndim
     mp = rng.choice(["default", "empty", "custom"])
     return dict(kind="field", mesh=spec, nvdim=nvdim, cplx=rng.random() < 0.4, labels=lab, mapping=mp,
-                unit=rng.choice([None, "A/m", "T"]), irshape=rng.choice(["none", "even", "odd"]), sub=rng.getrandbits(32))
+                unit=rng.choice([None, "A/m", "T"]), irshape=rng.choice(["none", "even", "odd"]), sub=rng.getrandbits(32),
+                masked=rng.random() < 0.35)
 
 
 # ------------------------------------------------------------------ helpers
@@ -322,6 +323,14 @@ def _run_impl(case, obs):
             rng.shuffle(order)          # the caller's dict need not list the labels in the order of vdims
         kw["vdim_mapping"] = {kk: rng.choice(pool) for kk in order}
     arr = ints((*nlist, nv), case["cplx"])
+    if case.get("masked"):
+        # a validity mask with invalid cells that hold ordinary (non-zero) values: the transforms are sums over ALL cells
+        # of the array - validity has no say in them - and their results are valid everywhere
+        vm = np.array([rng.random() < 0.6 for _ in range(int(np.prod(nlist)))], dtype=bool).reshape(tuple(nlist))
+        if vm.all():
+            vm.reshape(-1)[rng.randrange(vm.size)] = False
+        kw = dict(kw, valid=vm)
+        obs["tags"].append(f"validity-mask:{int((~vm).sum())}-of-{vm.size}-invalid")
     f = df.Field(m, nvdim=nv, value=arr, unit=case["unit"], **kw)
     snap = f.array.copy()
     obs["f"] = cf_json(f)
